@@ -3,7 +3,7 @@
 
 use crate::checks::c01::{env_of, opts_for, shape_n3};
 use crate::dest::{DestOp, Fault};
-use crate::dump::{dump_recorded, DumpOpts, DumpResult};
+use crate::dump::{dump_recorded, dump_recorded_at, DumpOpts, DumpResult};
 use crate::shapes::{build, par_map, Shape};
 use crate::Ctx;
 use mdv_core::{json, Report, Value};
@@ -18,6 +18,9 @@ fn pre_bytes(kind: usize, start: u64) -> Vec<u8> {
 
 fn check(start: u64, pre: &[u8], r: &DumpResult, d: &crate::dest::RecDest) -> Option<(String, String)> {
     let s = start as usize;
+    if let Some((at, n)) = d.stray.first() {
+        return Some(("write-outside-the-dump".into(), format!("{n} bytes were written at absolute offset {at:#x}; the destination was positioned at {:#x} when the dump started", d.base + start)));
+    }
     // nothing before the starting position is touched (neither stored nor even written to)
     for op in &d.log {
         if let DestOp::Write { at, .. } = op {
@@ -85,6 +88,15 @@ fn run_one(shape: &Shape, t: &[usize], start: u64, pre_kind: usize, faults: bool
     let mut aborted = !matches!(r, DumpResult::Ok(_)) as u64;
     if let Some((k, m)) = check(start, &pre, &r, &d) {
         fails.push((k, m));
+    }
+    // the same destination presented just below / beyond 4 GiB and at 2^40 (a dump appended to a huge file)
+    for base in [0xffff_f000u64, 0x1_0000_3000, 1 << 40] {
+        b.p.quiesce();
+        let (r2, d2) = dump_recorded_at(b.p.pid, &o, base, start, pre.clone(), Fault::None);
+        dumps += 1;
+        if let Some((kk, m)) = check(start, &pre, &r2, &d2) {
+            fails.push((format!("high-offset/{kk}"), format!("destination window at absolute offset {base:#x}: {m}")));
+        }
     }
     if faults {
         for k in 0..d.calls {
